@@ -23,10 +23,12 @@ import (
 	"sort"
 	"strconv"
 	"strings"
+	"time"
 
 	"chainguard.dev/apko/pkg/apk/apk"
 	"chainguard.dev/apko/pkg/build"
 	"chainguard.dev/apko/pkg/build/types"
+	"chainguard.dev/apko/pkg/tarfs"
 	"github.com/chainguard-dev/clog"
 	"verifharness/gal"
 	"verifharness/synthrepo"
@@ -44,6 +46,8 @@ type pspec struct {
 	Edge     bool     `json:"edge,omitempty"` // lives in the tagged repository "@edge"
 	// per-architecture overrides of provides (key: apk arch)
 	ProvidesOn map[string][]string `json:"provides_on,omitempty"`
+	// the control section carries executable scripts (.pre-install, .post-install, .trigger) whose own mtime is not the build's epoch
+	Scripts bool `json:"scripts,omitempty"`
 }
 
 type scenario struct {
@@ -85,6 +89,14 @@ func materialise(sc scenario, key *synthrepo.Key, root string) (*world, error) {
 			}
 			sp := &synthrepo.Pkg{Name: p.Name, Version: p.Version, Arch: a, Origin: p.Name, Deps: p.Deps, Provides: prov,
 				Description: "synthetic " + p.Name, License: "MIT", Files: filesFor(p.Name, p.Version)}
+			if p.Scripts {
+				mt := time.Unix(1662926906, 0)
+				for _, sn := range []string{".pre-install", ".post-install", ".trigger"} {
+					sp.ExtraControl = append(sp.ExtraControl, synthrepo.File{Name: sn, Mode: 0o755, ModTime: mt,
+						Content: []byte("#!/bin/sh\n# " + p.Name + " " + sn + "\nexit 0\n")})
+				}
+				sp.Triggers = []string{"/usr/share/" + p.Name}
+			}
 			if p.Edge {
 				edgePkgs = append(edgePkgs, sp)
 			} else {
@@ -501,10 +513,10 @@ type cliDesc struct {
 
 // readImage: from the docker-style tarball `apko build` writes: the manifest
 // text (config digest + layer digests) and the installed database of the layer.
-func readImage(tarPath string) (manifest string, installed []opkg, err error) {
+func readImage(tarPath string) (manifest string, installed []opkg, scripts []string, err error) {
 	f, err := os.Open(tarPath)
 	if err != nil {
-		return "", nil, err
+		return "", nil, nil, err
 	}
 	defer f.Close()
 	tr := tar.NewReader(f)
@@ -515,11 +527,11 @@ func readImage(tarPath string) (manifest string, installed []opkg, err error) {
 			break
 		}
 		if err != nil {
-			return "", nil, err
+			return "", nil, nil, err
 		}
 		b, err := io.ReadAll(tr)
 		if err != nil {
-			return "", nil, err
+			return "", nil, nil, err
 		}
 		switch {
 		case h.Name == "manifest.json":
@@ -528,7 +540,7 @@ func readImage(tarPath string) (manifest string, installed []opkg, err error) {
 				Layers []string
 			}
 			if err := json.Unmarshal(b, &m); err != nil {
-				return "", nil, err
+				return "", nil, nil, err
 			}
 			for _, e := range m {
 				manifest += e.Config + " " + strings.Join(e.Layers, ",") + ";"
@@ -540,7 +552,7 @@ func readImage(tarPath string) (manifest string, installed []opkg, err error) {
 	for _, l := range layers {
 		zr, err := gzip.NewReader(bytes.NewReader(l))
 		if err != nil {
-			return "", nil, err
+			return "", nil, nil, err
 		}
 		lt := tar.NewReader(zr)
 		for {
@@ -549,7 +561,22 @@ func readImage(tarPath string) (manifest string, installed []opkg, err error) {
 				break
 			}
 			if err != nil {
-				return "", nil, err
+				return "", nil, nil, err
+			}
+			if n := strings.TrimPrefix(h.Name, "./"); n == "lib/apk/db/scripts.tar" || n == "usr/lib/apk/db/scripts.tar" {
+				// the members of the scripts archive: name, mode, mtime, content hash
+				b, _ := io.ReadAll(lt)
+				st := tar.NewReader(bytes.NewReader(b))
+				for {
+					sh, serr := st.Next()
+					if serr != nil {
+						break
+					}
+					c, _ := io.ReadAll(st)
+					sum := sha256.Sum256(c)
+					scripts = append(scripts, fmt.Sprintf("%s mode=%o mtime=%d sha256=%x", sh.Name, sh.Mode, sh.ModTime.Unix(), sum[:8]))
+				}
+				continue
 			}
 			if strings.TrimPrefix(h.Name, "./") == "lib/apk/db/installed" || strings.TrimPrefix(h.Name, "./") == "usr/lib/apk/db/installed" {
 				b, _ := io.ReadAll(lt)
@@ -573,7 +600,7 @@ func readImage(tarPath string) (manifest string, installed []opkg, err error) {
 			}
 		}
 	}
-	return manifest, installed, nil
+	return manifest, installed, scripts, nil
 }
 
 // cliCase: apko lock on the scenario; every package entry of lock.json judged
@@ -672,13 +699,14 @@ func cliCase(wl, wb *gal.Writer, wd *world, class string, buildArchs []string, a
 		o2, e2 := runApko(work, env, "build", cfg, "c09/img:latest", plainTar, "--arch", a, "--sbom=false")
 		var m1, m2 string
 		var i1, i2 []opkg
+		var s1, s2 []string
 		if e1 == nil {
-			m1, i1, e1 = readImage(lockedTar)
+			m1, i1, s1, e1 = readImage(lockedTar)
 		} else {
 			d.Builds[a+"/locked"] = tail(o1, 400)
 		}
 		if e2 == nil {
-			m2, i2, e2 = readImage(plainTar)
+			m2, i2, s2, e2 = readImage(plainTar)
 		} else {
 			d.Builds[a+"/plain"] = tail(o2, 400)
 		}
@@ -688,12 +716,256 @@ func cliCase(wl, wb *gal.Writer, wd *world, class string, buildArchs []string, a
 				listed = append(listed, opkg{Name: p.Name, Version: p.Version})
 			}
 		}
-		bterm := fmt.Sprintf("(CBuild {| b_arch := %s; b_repo_changed := %s; b_world := %s; b_universe := %s; b_listed := %s; b_locked_ok := %s; b_plain_ok := %s; b_locked_installed := %s; b_plain_installed := %s; b_locked_manifest := %s; b_plain_manifest := %s |})",
-			gal.Str(a), gal.Bool(after != nil), gal.StrList(sc.World), galUniverse(sc, a), galNV(listed), gal.Bool(e1 == nil), gal.Bool(e2 == nil), galNV(i1), galNV(i2), gal.Str(m1), gal.Str(m2))
+		bterm := fmt.Sprintf("(CBuild {| b_arch := %s; b_repo_changed := %s; b_world := %s; b_universe := %s; b_listed := %s; b_locked_ok := %s; b_plain_ok := %s; b_locked_installed := %s; b_plain_installed := %s; b_locked_manifest := %s; b_plain_manifest := %s; b_locked_scripts := %s; b_plain_scripts := %s |})",
+			gal.Str(a), gal.Bool(after != nil), gal.StrList(sc.World), galUniverse(sc, a), galNV(listed), gal.Bool(e1 == nil), gal.Bool(e2 == nil), galNV(i1), galNV(i2), gal.Str(m1), gal.Str(m2), gal.StrList(s1), gal.StrList(s2))
 		wb.Add(gal.Case{Term: bterm, Class: class + "/build", Trivial: false, Key: bterm, Desc: d})
 		os.Remove(lockedTar)
 		os.Remove(plainTar)
 	}
+}
+
+// ---- a lock file that outlives its configuration -----------------------------------------------------
+// History: `apko lock apko.yaml`, then the configuration is edited (a requested package dropped) and NOT locked again; then
+// `apko build --lockfile` names the configuration by several spellings of the same file. Before the edit every spelling must build
+// and install what the lock lists; after the edit every spelling must be refused (or install what the edited configuration
+// resolves to) - never the old set.
+type staleRun struct {
+	Spelling  string `json:"spelling"`
+	Given     string `json:"config_given_as"`
+	OK        bool   `json:"build_succeeded"`
+	Installed []opkg `json:"installed,omitempty"`
+	Out       string `json:"output_tail,omitempty"`
+}
+type staleDesc struct {
+	Scenario  scenario   `json:"scenario"`
+	NewWorld  []string   `json:"world_after_edit"`
+	LockName  string     `json:"configuration_named_at_lock_time"`
+	Fresh     []staleRun `json:"builds_before_the_edit"`
+	Stale     []staleRun `json:"builds_after_the_edit"`
+	PlainOK   bool       `json:"unlocked_build_after_edit_ok"`
+	Plain     []opkg     `json:"unlocked_build_after_edit_installed,omitempty"`
+	LockError string     `json:"apko_lock_error,omitempty"`
+}
+
+func galStaleRuns(rs []staleRun) string {
+	it := make([]string, len(rs))
+	for i, r := range rs {
+		it[i] = fmt.Sprintf("(%s, %s, %s)", gal.Str(r.Spelling), gal.Bool(r.OK), galNV(r.Installed))
+	}
+	return gal.List(it)
+}
+
+func staleCase(w *gal.Writer, wd *world, newWorld []string, arch string) {
+	sc := wd.sc
+	work := filepath.Join(wd.dir, "work")
+	_ = os.MkdirAll(work, 0o755)
+	_ = os.MkdirAll(filepath.Join(work, "sub"), 0o755)
+	link := filepath.Join(wd.dir, "worklink")
+	_ = os.Symlink(work, link)
+	cfg := filepath.Join(work, "apko.yaml")
+	if err := wd.writeConfig(cfg, sc.World, sc.Archs); err != nil {
+		fmt.Fprintln(os.Stderr, "c09:", err)
+		return
+	}
+	env := []string{"SOURCE_DATE_EPOCH=0", "XDG_CACHE_HOME=" + filepath.Join(wd.dir, "cache"), "HOME=" + wd.dir}
+	d := staleDesc{Scenario: sc, NewWorld: newWorld, LockName: "apko.yaml"}
+	// the lock is taken with the configuration named relative to the working directory
+	if out, err := runApko(work, env, "lock", "apko.yaml", "--output", "apko.lock.json", "--arch", strings.Join(sc.Archs, ",")); err != nil {
+		d.LockError = tail(out, 400)
+		w.Add(gal.Case{Term: "(CStale {| sl_locked := false; sl_listed := []; sl_plain_ok := false; sl_plain_installed := []; sl_fresh := []; sl_stale := [] |})",
+			Class: "stale-lock/lock-failed", Key: sc.Name + "/stale", Desc: d})
+		return
+	}
+	var lj lockJSON
+	if b, err := os.ReadFile(filepath.Join(work, "apko.lock.json")); err == nil {
+		_ = json.Unmarshal(b, &lj)
+	}
+	var listed []opkg
+	for _, p := range lj.Contents.Packages {
+		if p.Architecture == arch {
+			listed = append(listed, opkg{Name: p.Name, Version: p.Version})
+		}
+	}
+	spellings := []struct{ kind, path string }{
+		{"as-locked", "apko.yaml"},
+		{"dot-slash", "./apko.yaml"},
+		{"absolute", cfg},
+		{"dot-dot", "sub/../apko.yaml"},
+		{"through-symlinked-directory", filepath.Join(link, "apko.yaml")},
+	}
+	build := func(kind, given string, locked bool) staleRun {
+		out := filepath.Join(work, "img-"+kind+".tar")
+		args := []string{"build", given, "c09/img:latest", out, "--arch", arch, "--sbom=false"}
+		if locked {
+			args = append(args, "--lockfile", "apko.lock.json")
+		}
+		o, err := runApko(work, env, args...)
+		r := staleRun{Spelling: kind, Given: given, OK: err == nil}
+		if err == nil {
+			_, r.Installed, _, err = readImage(out)
+			r.OK = err == nil
+		} else {
+			r.Out = tail(o, 300)
+		}
+		os.Remove(out)
+		return r
+	}
+	// before the edit: two of the spellings (the lock is good for every one of them)
+	for _, sp := range spellings[1:3] {
+		d.Fresh = append(d.Fresh, build(sp.kind, sp.path, true))
+	}
+	// the edit
+	if err := wd.writeConfig(cfg, newWorld, sc.Archs); err != nil {
+		fmt.Fprintln(os.Stderr, "c09:", err)
+		return
+	}
+	for _, sp := range spellings {
+		d.Stale = append(d.Stale, build(sp.kind, sp.path, true))
+	}
+	plain := build("unlocked", "apko.yaml", false)
+	d.PlainOK, d.Plain = plain.OK, plain.Installed
+	term := fmt.Sprintf("(CStale {| sl_locked := true; sl_listed := %s; sl_plain_ok := %s; sl_plain_installed := %s; sl_fresh := %s; sl_stale := %s |})",
+		galNV(listed), gal.Bool(d.PlainOK), galNV(d.Plain), galStaleRuns(d.Fresh), galStaleRuns(d.Stale))
+	w.Add(gal.Case{Term: term, Class: "stale-lock/" + sc.Name, Key: sc.Name + "/stale", Desc: d})
+}
+
+// ---- an image on top of a base image -----------------------------------------------------------------
+// The repository's own base image (internal/cli/testdata/base_image: pretend-baselayout-1.0.0-r0 installed) under a configuration that
+// requests replayout (-> pretend-baselayout) from a synthetic repository which carries pretend-baselayout-1.0.0-r0 as ANOTHER build
+// (same name and version, other bytes: a rebuilt package). `apko lock` (CLI), then the locked build through the library (build.New with
+// WithLockFile + BuildImage, as pkg/build's own tests do). What the lock lists for the architecture must be exactly what that build
+// adds to the base image, each package in the listed build (checksum).
+type basePkg struct {
+	Name     string `json:"name"`
+	Version  string `json:"version"`
+	Checksum string `json:"checksum"`
+}
+type baseDesc struct {
+	Config    string    `json:"configuration"`
+	LockErr   string    `json:"apko_lock_error,omitempty"`
+	BuildErr  string    `json:"locked_build_error,omitempty"`
+	Listed    []basePkg `json:"lock_lists"`
+	Installed []basePkg `json:"image_from_lock_has"`
+	Base      []basePkg `json:"base_image_has"`
+}
+
+func galBasePkgs(ps []basePkg) string {
+	it := make([]string, len(ps))
+	for i, p := range ps {
+		it[i] = fmt.Sprintf("(%s, %s, %s)", gal.Str(p.Name), gal.Str(p.Version), gal.Str(p.Checksum))
+	}
+	return gal.List(it)
+}
+
+func parseInstalledDB(text string) []basePkg {
+	var out []basePkg
+	var cur basePkg
+	for _, line := range strings.Split(text, "\n") {
+		switch {
+		case strings.HasPrefix(line, "P:"):
+			cur.Name = line[2:]
+		case strings.HasPrefix(line, "V:"):
+			cur.Version = line[2:]
+		case strings.HasPrefix(line, "C:"):
+			cur.Checksum = line[2:]
+		case line == "":
+			if cur.Name != "" {
+				out = append(out, cur)
+			}
+			cur = basePkg{}
+		}
+	}
+	if cur.Name != "" {
+		out = append(out, cur)
+	}
+	return out
+}
+
+func baseCase(w *gal.Writer, key *synthrepo.Key) {
+	repoRoot := os.Getenv("VERIF_REPO")
+	if repoRoot == "" {
+		repoRoot = "/repo"
+	}
+	baseDir := filepath.Join(repoRoot, "internal", "cli", "testdata", "base_image")
+	if _, err := os.Stat(baseDir); err != nil {
+		fmt.Printf("STAT {\"c09_base_image_testdata_missing\": 1}\n")
+		return
+	}
+	root, err := os.MkdirTemp("", "c09-base-*")
+	if err != nil {
+		return
+	}
+	defer os.RemoveAll(root)
+	arch := "x86_64"
+	pkgs := []*synthrepo.Pkg{
+		{Name: "pretend-baselayout", Version: "1.0.0-r0", Arch: arch, Origin: "pretend-baselayout", Description: "rebuilt", License: "MIT",
+			Files: filesFor("pretend-baselayout", "1.0.0-r0")},
+		{Name: "replayout", Version: "1.0.0-r0", Arch: arch, Origin: "replayout", Description: "synthetic replayout", License: "MIT",
+			Deps: []string{"pretend-baselayout"}, Files: filesFor("replayout", "1.0.0-r0")},
+	}
+	repo, err := synthrepo.Write(filepath.Join(root, "packages"), key, pkgs)
+	if err != nil {
+		fmt.Fprintln(os.Stderr, "c09: base repo:", err)
+		return
+	}
+	work := filepath.Join(root, "work")
+	_ = os.MkdirAll(work, 0o755)
+	cfg := filepath.Join(work, "image_on_top.apko.yaml")
+	text := "contents:\n  baseimage:\n    image: " + baseDir + "/\n    apkindex: " + filepath.Join(baseDir, "metadata") + "/\n" +
+		"  keyring:\n    - " + repo.KeyPath() + "\n  repositories:\n    - " + repo.Dir + "\n  packages:\n    - replayout\narchs:\n- x86_64\n"
+	if err := os.WriteFile(cfg, []byte(text), 0o644); err != nil {
+		return
+	}
+	d := baseDesc{Config: text}
+	env := []string{"SOURCE_DATE_EPOCH=0", "XDG_CACHE_HOME=" + filepath.Join(root, "cache"), "HOME=" + root}
+	lockPath := filepath.Join(work, "image_on_top.apko.lock.json")
+	locked, built := true, true
+	if out, err := runApko(work, env, "lock", cfg, "--output", lockPath, "--arch", arch); err != nil {
+		d.LockErr, locked, built = tail(out, 500), false, false
+	}
+	if locked {
+		var lj lockJSON
+		if b, err := os.ReadFile(lockPath); err == nil {
+			_ = json.Unmarshal(b, &lj)
+		}
+		for _, p := range lj.Contents.Packages {
+			if p.Architecture == arch {
+				d.Listed = append(d.Listed, basePkg{p.Name, p.Version, p.Checksum})
+			}
+		}
+		func() {
+			defer func() {
+				if r := recover(); r != nil {
+					d.BuildErr, built = fmt.Sprint("panic: ", r), false
+				}
+			}()
+			ctx := quietCtx()
+			bc, err := build.New(ctx, tarfs.New(), build.WithConfig(cfg, []string{}), build.WithLockFile(lockPath),
+				build.WithArch(types.ParseArchitecture(arch)), build.WithTempDir(filepath.Join(root, "tmp")))
+			if err == nil {
+				err = bc.BuildImage(ctx)
+			}
+			if err != nil {
+				d.BuildErr, built = err.Error(), false
+				return
+			}
+			inst, err := bc.InstalledPackages()
+			if err != nil {
+				d.BuildErr, built = err.Error(), false
+				return
+			}
+			for _, p := range inst {
+				d.Installed = append(d.Installed, basePkg{p.Name, p.Version, p.ChecksumString()})
+			}
+		}()
+	}
+	// what the base image has: the installed database its index was made from (metadata/<arch>/APKINDEX)
+	if b, err := os.ReadFile(filepath.Join(baseDir, "metadata", arch, "APKINDEX")); err == nil {
+		d.Base = parseInstalledDB(string(b))
+	}
+	term := fmt.Sprintf("(CBase {| ba_locked := %s; ba_built := %s; ba_listed := %s; ba_installed := %s; ba_base := %s |})",
+		gal.Bool(locked), gal.Bool(built), galBasePkgs(d.Listed), galBasePkgs(d.Installed), galBasePkgs(d.Base))
+	w.Add(gal.Case{Term: term, Class: "base-image/rebuilt-package-in-repository", Key: "base-image", Desc: d})
 }
 
 func tail(s string, n int) string {
@@ -813,6 +1085,10 @@ func corpusScenarios() []scenario {
 		{Name: "tagged-dependency-admitted-by-own-name", Archs: both(), World: []string{"0b", "a@edge"}, Pkgs: []pspec{
 			{Name: "0b", Version: "1.0-r0", Archs: both(), Deps: []string{"a"}},
 			{Name: "a", Version: "2.0-r0", Archs: both(), Edge: true, Deps: []string{"d"}}, {Name: "d", Version: "3.0-r0", Archs: both()}}},
+		// packages whose control section carries executable scripts (their own mtime is not the build's epoch): /lib/apk/db/scripts.tar of the
+		// locked build must be the unlocked build's. The install orders agree here (a=.. sorts first and pulls b), so C09-F5 stays out of it
+		{Name: "control-scripts", Archs: both(), World: []string{"a"}, Pkgs: []pspec{
+			{Name: "a", Version: "1.0-r0", Archs: both(), Deps: []string{"b"}, Scripts: true}, {Name: "b", Version: "2.0-r0", Archs: both(), Scripts: true}}},
 		{Name: "dependency-missing-on-one-arch", Archs: both(), World: []string{"a"}, Pkgs: []pspec{
 			{Name: "a", Version: "1.0-r0", Archs: both(), Deps: []string{"b"}}, {Name: "b", Version: "1.0-r0", Archs: []string{X}}}},
 		// the repositories and the key come through build options: the locked configurations are re-resolved on their own, so they must
@@ -1045,7 +1321,7 @@ func cliStage(dir string, seed uint64, tier string) error {
 		"basic-dep": {X}, "virtual-by-provided-name": {Y}, "pinned-with-dependency-in-tagged-repo": {X}, "diamond": {X},
 		"newer-version-on-one-arch": {X},
 		"compatible-architectures-x86": {X, "x86"}, "compatible-architectures-arm": {Y}, "riscv64-only": {Zr},
-		"install-order-of-lock-list-differs": {X},
+		"install-order-of-lock-list-differs": {X}, "control-scripts": {X},
 	}
 	for _, sc := range cs {
 		sc := sc
@@ -1067,6 +1343,12 @@ func cliStage(dir string, seed uint64, tier string) error {
 			return err
 		})
 	})
+	// wave 3: a lock file that outlives its configuration, named by several spellings; an image on top of a base image
+	staleSc := scenario{Name: "configuration-edited-after-lock", Archs: both(), World: []string{"a", "c"}, Pkgs: []pspec{
+		{Name: "a", Version: "1.0-r0", Archs: both(), Deps: []string{"b"}}, {Name: "b", Version: "2.0-r0", Archs: both()},
+		{Name: "c", Version: "0.1-r0", Archs: both()}}}
+	withWorld(key, staleSc, func(wd *world) { staleCase(w, wd, []string{"a"}, X) })
+	baseCase(w, key)
 	r := gal.NewRand(seed + 57)
 	n := 6
 	if tier == "thorough" {
